@@ -29,6 +29,8 @@
     unit  := L<hex> | B<hex> | S<hex> | Q<hex> ($'…', unquoted content) | D[ tunit* ] | tunit
            | T<hex name> (tilde prefix `~name`, not followed by a slash) | T/<hex name> (followed by a slash)
     tunit := L<hex> | B<hex> | $<param> | {<param> modifier } | A[ tunit* ] (arithmetic expansion `$((…))`)
+           | K<hex command> (`$(command)`) | Kb<hex command> (`` `command` ``); the commands are `emit <hex>`, a
+             harness built-in that writes the decoded text
     modifier := ε | len | sw[:](-|=|?|+) unit* | tr(#|##|%|%%) unit*
     param := name | @ | * | # | ? | - | $ | ! | 0 | <digits> (positional, `00` = index 0)
 
@@ -136,6 +138,12 @@ mutual
     else if tok.startsWith "B" then do
       let c ← hexChar (tok.drop 1).toString
       some (.bs c, rest)
+    else if tok.startsWith "Kb" then do
+      let c ← decChars (tok.drop 2).toString
+      some (.cmd true c, rest)
+    else if tok.startsWith "K" then do
+      let c ← decChars (tok.drop 1).toString
+      some (.cmd false c, rest)
     else if tok = "A[" then do
       let (ts, rest) ← parseTUnits rest
       match rest with
@@ -194,9 +202,15 @@ def parseValue (t : String) : Option (Option Value) :=
     | [] => none
   else none
 
+/-- the value source of the correspondence run: the harness built-in `emit <hex>` writes the decoded text -/
+def emitOutput (cmd : List Char) : List Char :=
+  match (String.ofList cmd).splitOn " " with
+  | ["emit", h] => (decChars h).getD []
+  | _ => []
+
 def initialEnv : Env :=
   { vars := [("IFS", { value := some (.scalar Ifs.defaultChars), readOnly := false })],
-    pos := [], nounset := false, exitStatus := 0, arg0 := "yash".toList }
+    pos := [], nounset := false, exitStatus := 0, arg0 := "yash".toList, cmdOut := emitOutput }
 
 structure ReadOpts where
   raw : Bool := false
@@ -515,6 +529,8 @@ def runLine (line : String) : String :=
             else
             match runCtx false ro.ctx env ws, runCtx true ro.ctx env ws with
             | some a, some b =>
+              -- words with a command substitution: the harness has no attributed observation (`~`)
+              if (words r).any (·.startsWith "K") then obsW "~" a ++ "\t=" ++ obsW "~" b else
               obsW (showInitial false ro.ctx env ws) a ++ "\t=" ++ obsW (showInitial true ro.ctx env ws) b
             | _, _ => "bad-case\t-"
         else if kind = "T" then
